@@ -314,6 +314,9 @@ Argument:
         scheduler_class = {'batch':       BatchScheduler,
                            'round-robin': RoundRobinScheduler,
                            'random':      RandomScheduler}.get(self._config.options.scheduler)
+        if scheduler_class is None:
+            raise UIError("Unknown scheduler: %s\n{ind}Supported are batch, round-robin, and random.\n"
+                          % escape_braces(self._config.options.scheduler), None)
 
         executor = Executor(runs, self._config.do_builds,
                             self.ui,
